@@ -294,96 +294,7 @@ func c09(c *Ctx) {
 
 	// ---- R09.L: lock discipline of the two tables -------------------------------------------------------
 	r.Rule("R09.L", "the waiter and hint tables are maps shared by the callers and the receive loop: every write of the map (insert, delete, replace) is inside the exclusive Lock section of the table's mutex, every read inside a Lock or RLock section", 8)
-	for _, tbl := range []string{"SyncIntObjectChan", "SyncIntReflectTypes"} {
-		named, _ := c.P.TypeOf(load.UtilsPkg, tbl)
-		if named == nil {
-			r.Undecide("R09.L", "locks:"+tbl, "", "type not found")
-			continue
-		}
-		for _, f := range c.P.MethodsOf(load.UtilsPkg, tbl) {
-			if len(f.Blocks) == 0 {
-				continue
-			}
-			// only methods somebody calls (Keys() lost its last caller with the targeted notification)
-			called := false
-			for g := range c.P.AllFunctions() {
-				if !c.P.InRepo(g) || g == f {
-					continue
-				}
-				for _, cs := range an.Calls(g) {
-					if an.StaticCallee(cs.Common) == f {
-						called = true
-					}
-				}
-			}
-			if !called {
-				continue
-			}
-			ex := an.LockScopes(f, tbl+".mutex")
-			sh := an.RLockScopes(f, tbl+".mutex")
-			isMap := func(v ssa.Value) bool { return strings.HasSuffix(tr.OriginString(v), "utils."+tbl+".m") }
-			nW, nR := 0, 0
-			for _, b := range f.Blocks {
-				for _, in := range b.Instrs {
-					kind := ""
-					switch x := in.(type) {
-					case *ssa.MapUpdate:
-						if isMap(x.Map) {
-							kind = "write"
-						}
-					case *ssa.Lookup:
-						if isMap(x.X) {
-							kind = "read"
-						}
-					case *ssa.Range:
-						if isMap(x.X) {
-							kind = "read"
-						}
-					case *ssa.Store:
-						if fa, ok := x.Addr.(*ssa.FieldAddr); ok && an.FieldName(fa.X.Type(), fa.Field) == "utils."+tbl+".m" {
-							kind = "write"
-						}
-					case *ssa.Call:
-						switch an.CalleeName(x.Common()) {
-						case "builtin:delete":
-							if isMap(x.Call.Args[0]) {
-								kind = "write"
-							}
-						case "builtin:len":
-							if isMap(x.Call.Args[0]) {
-								kind = "read"
-							}
-						}
-					}
-					if kind == "" {
-						continue
-					}
-					covered := false
-					for _, sc := range ex {
-						if sc.Covers(in) {
-							covered = true
-						}
-					}
-					if kind == "read" {
-						nR++
-						for _, sc := range sh {
-							if sc.Covers(in) {
-								covered = true
-							}
-						}
-					} else {
-						nW++
-					}
-					key := sprintf("locks:%s.%s/%s#%d", tbl, f.Name(), kind, map[string]int{"read": nR, "write": nW}[kind])
-					what := "a read of the table's map outside any section of its mutex races with the writers"
-					if kind == "write" {
-						what = "a write of the table's map that is not inside the exclusive Lock section runs concurrently with the receive loop's lookups (under RLock two holders proceed at once): concurrent map read and map write"
-					}
-					r.Check(covered, "R09.L", key, c.pos(in.Pos()), what)
-				}
-			}
-		}
-	}
+	c.tableLocks("R09.L")
 
 	// ---- R09.O: register before writing ----------------------------------------------------------
 	r.Rule("R09.O", "the waiter (and its decoder hints) is registered before the request is written: an answer processed right after the write must find it", 2)
@@ -1164,6 +1075,102 @@ func (c *Ctx) packedResultUnwrapped(rule string) {
 		}
 		if n == 0 {
 			r.Undecide(rule, "result:unwrapped-from-gzip", c.pos(pr.Pos()), "no writeRPCResponse call in processResponse")
+		}
+	}
+}
+
+// tableLocks: lock discipline of the waiter and hint tables (maps shared by every caller and the receive loop).
+func (c *Ctx) tableLocks(rule string) {
+	r := c.R
+	tr := an.NewTracer()
+	for _, tbl := range []string{"SyncIntObjectChan", "SyncIntReflectTypes"} {
+		named, _ := c.P.TypeOf(load.UtilsPkg, tbl)
+		if named == nil {
+			r.Undecide(rule, "locks:"+tbl, "", "type not found")
+			continue
+		}
+		for _, f := range c.P.MethodsOf(load.UtilsPkg, tbl) {
+			if len(f.Blocks) == 0 {
+				continue
+			}
+			// only methods somebody calls (Keys() lost its last caller with the targeted notification)
+			called := false
+			for g := range c.P.AllFunctions() {
+				if !c.P.InRepo(g) || g == f {
+					continue
+				}
+				for _, cs := range an.Calls(g) {
+					if an.StaticCallee(cs.Common) == f {
+						called = true
+					}
+				}
+			}
+			if !called {
+				continue
+			}
+			ex := an.LockScopes(f, tbl+".mutex")
+			sh := an.RLockScopes(f, tbl+".mutex")
+			isMap := func(v ssa.Value) bool { return strings.HasSuffix(tr.OriginString(v), "utils."+tbl+".m") }
+			nW, nR := 0, 0
+			for _, b := range f.Blocks {
+				for _, in := range b.Instrs {
+					kind := ""
+					switch x := in.(type) {
+					case *ssa.MapUpdate:
+						if isMap(x.Map) {
+							kind = "write"
+						}
+					case *ssa.Lookup:
+						if isMap(x.X) {
+							kind = "read"
+						}
+					case *ssa.Range:
+						if isMap(x.X) {
+							kind = "read"
+						}
+					case *ssa.Store:
+						if fa, ok := x.Addr.(*ssa.FieldAddr); ok && an.FieldName(fa.X.Type(), fa.Field) == "utils."+tbl+".m" {
+							kind = "write"
+						}
+					case *ssa.Call:
+						switch an.CalleeName(x.Common()) {
+						case "builtin:delete":
+							if isMap(x.Call.Args[0]) {
+								kind = "write"
+							}
+						case "builtin:len":
+							if isMap(x.Call.Args[0]) {
+								kind = "read"
+							}
+						}
+					}
+					if kind == "" {
+						continue
+					}
+					covered := false
+					for _, sc := range ex {
+						if sc.Covers(in) {
+							covered = true
+						}
+					}
+					if kind == "read" {
+						nR++
+						for _, sc := range sh {
+							if sc.Covers(in) {
+								covered = true
+							}
+						}
+					} else {
+						nW++
+					}
+					key := sprintf("locks:%s.%s/%s#%d", tbl, f.Name(), kind, map[string]int{"read": nR, "write": nW}[kind])
+					what := "a read of the table's map outside any section of its mutex races with the writers"
+					if kind == "write" {
+						what = "a write of the table's map that is not inside the exclusive Lock section runs concurrently with the receive loop's lookups (under RLock two holders proceed at once): concurrent map read and map write"
+					}
+					r.Check(covered, rule, key, c.pos(in.Pos()), what)
+				}
+			}
 		}
 	}
 }
